@@ -214,6 +214,39 @@ def is_text_image(b):
     return len(bf.segments) > 0
 
 
+def text_image_outcome(b):
+    """The exact defective outcome of finding C16-F2 for BIN content b: what load_binary_image returns when bincopy's
+    format guess decodes the content as a text image.  None when the content is not in that class;
+    ("fail",) when the guessed format's parser rejects it; ("ok", offset, export-hex) otherwise."""
+    if not is_text_image(b):
+        return None
+    import bincopy
+    bf = bincopy.BinFile()
+    try:
+        bf.add(b.decode("utf-8"))
+    except Exception:  # noqa
+        return ("fail",)
+    segs = [(s.address, bytes(s.data)) for s in bf.segments]
+    lo = min(a for a, _ in segs)
+    hi = max(a + len(d) for a, d in segs)
+    if hi - lo > (1 << 22):
+        return ("ok", lo, "!e2:TooLarge")
+    buf = bytearray(hi - lo)
+    for a, d in segs:
+        buf[a - lo:a - lo + len(d)] = d
+    return ("ok", lo, bytes(buf).hex())
+
+
+def is_f2_outcome(b, r):
+    """does the implementation's BIN reload r show exactly the C16-F2 behaviour for content b?"""
+    want = text_image_outcome(b)
+    if want is None or r.get("save") != "ok":
+        return False
+    if want == ("fail",):
+        return r.get("load") == "!e1"
+    return r.get("load") == "ok" and r.get("offset") == want[1] and r.get("export") == want[2]
+
+
 def oracle_tree(t, res):
     """Spec oracle for one tree observation. Returns list of (signature, message)."""
     out = []
@@ -301,7 +334,8 @@ def oracle_fmt(t, case, res):
             continue
         cls = ""
         if fmt == "BIN" and is_text_image(E):
-            cls = ":content-is-guessed-as-a-text-image"
+            # the finding's signature is keyed on the exact defective OUTCOME, not on the input class
+            cls = ":decoded-by-format-guess" if is_f2_outcome(E, r) else ":content-is-guessed-as-a-text-image"
         elif fmt == "BIN" and is_text(E):
             cls = ":text-content-without-image-data"
         elif fmt != "BIN" and unpatterned_under_pattern(n):
@@ -631,12 +665,12 @@ def compare(c, res, mvals):
             if iv != m_hex:
                 dis.append((fmt, iv, m_hex))
         E = bytes.fromhex(res["export"]) if not res["export"].startswith("!") else b""
-        if not is_text_image(E):      # bincopy's format auto-detection is outside the model
+        if not is_f2_outcome(E, res["BIN"]):   # excused only for the exact C16-F2 outcome (reported by the oracle); else compared
             iv = impl_loaded_value(res["BIN"])
             if iv != m_bin:
                 dis.append(("BIN", iv, m_bin))
         return dis
-    if not is_text_image(c["content"]):
+    if not is_f2_outcome(c["content"], res["BIN"]):
         iv = impl_loaded_value(res["BIN"])
         if iv != mvals[0]:
             dis.append(("BIN", iv, mvals[0]))
